@@ -777,7 +777,9 @@ impl<'a> UdpNhcRepr {
                 checksum::data(packet.payload_mut()),
             ]);
 
-            packet.set_checksum(chk_sum);
+            // UDP checksum value of 0 means no checksum; if the checksum really is zero,
+            // use all-ones, which indicates that the remote end must verify the checksum.
+            packet.set_checksum(if chk_sum == 0 { 0xffff } else { chk_sum });
         }
     }
 }
